@@ -256,6 +256,7 @@ func (c *tunnelChannel) Invoke(ctx context.Context, methodName string, req, resp
 	if err := str.SendMsg(req); err != nil {
 		return err
 	}
+	verifYield("client.invoke.afterSend")
 	if err := str.CloseSend(); err != nil {
 		return err
 	}
